@@ -33,8 +33,12 @@ func newPlencJSON() *plenc.Plenc {
 	return p
 }
 
+// Bounds of the value trees. quick: containers nested twice, <=1 element each,
+// one-byte integers. thorough: one more level of nesting and full-width
+// integers; its intermediate fallback (vrt.Mid): quick's nesting with <=2
+// elements in the top-level container.
 func anyDepth() int {
-	if vrt.Thorough() {
+	if vrt.Thorough() && !vrt.Mid() {
 		return 2
 	}
 	return 1
@@ -70,21 +74,21 @@ func fillAny(nm string, d int) any {
 // varints (still symbolic) to avoid the ten-way varint length split.
 func smallInt(nm string) int {
 	v := vrt.Int(nm)
-	if !vrt.Thorough() {
+	if !vrt.Thorough() || vrt.Mid() {
 		vrt.Assume(vrt.And(v >= -100, v < 100))
 	}
 	return v
 }
 
-func anyWidth() int {
-	if vrt.Thorough() {
+func anyWidth(d int) int {
+	if vrt.Thorough() && vrt.Mid() && d == anyDepth() {
 		return 4
 	}
 	return 3
 }
 
 func fillArr(nm string, d int) []any {
-	switch k := vrt.Choice(nm+".alen", anyWidth()); k {
+	switch k := vrt.Choice(nm+".alen", anyWidth(d)); k {
 	case 0:
 		return nil
 	case 1:
@@ -105,7 +109,7 @@ type objShadow struct {
 }
 
 func fillObjSh(nm string, d int, sh *objShadow) map[string]any {
-	switch k := vrt.Choice(nm+".olen", anyWidth()); k {
+	switch k := vrt.Choice(nm+".olen", anyWidth(d)); k {
 	case 0:
 		return nil
 	case 1:
